@@ -202,31 +202,31 @@ theorem isType_iff (t : IsOp) (x : Json) : isType t x = true ↔ TypeFact t x :=
 
 /-! ### rule lists -/
 
-theorem evalAll_iff (e : Env) (rs : List Rule) :
+theorem evalAll_iff (e : CEnv) (rs : List Rule) :
     evalAll e rs = true ↔ ∀ r ∈ rs, evalRule e r = true := by
   induction rs with
   | nil => simp [evalAll]
   | cons r rs ih => simp [evalAll, ih]
 
-theorem evalAny_iff (e : Env) (rs : List Rule) :
+theorem evalAny_iff (e : CEnv) (rs : List Rule) :
     evalAny e rs = true ↔ ∃ r ∈ rs, evalRule e r = true := by
   induction rs with
   | nil => simp [evalAny]
   | cons r rs ih => simp [evalAny, ih]
 
-theorem evalAll_map_not (e : Env) (rs : List Rule) :
+theorem evalAll_map_not (e : CEnv) (rs : List Rule) :
     evalAll e (rs.map .not) = !evalAny e rs := by
   induction rs with
   | nil => simp [evalAll, evalAny]
   | cons r rs ih => simp [evalAll, evalAny, evalRule, ih]
 
-theorem evalAny_map_not (e : Env) (rs : List Rule) :
+theorem evalAny_map_not (e : CEnv) (rs : List Rule) :
     evalAny e (rs.map .not) = !evalAll e rs := by
   induction rs with
   | nil => simp [evalAll, evalAny]
   | cons r rs ih => simp [evalAll, evalAny, evalRule, ih]
 
-theorem firstMatch_none_iff (e : Env) (cs : List (Rule × Str)) :
+theorem firstMatch_none_iff (e : CEnv) (cs : List (Rule × Str)) :
     firstMatch e cs = none ↔ ∀ c ∈ cs, evalRule e c.1 = false := by
   induction cs with
   | nil => simp [firstMatch]
@@ -237,7 +237,7 @@ theorem firstMatch_none_iff (e : Env) (cs : List (Rule × Str)) :
     · rename_i h; simp [h]
     · rename_i h; simp [ih, h]
 
-theorem firstMatch_some_iff (e : Env) (cs : List (Rule × Str)) (n : Str) :
+theorem firstMatch_some_iff (e : CEnv) (cs : List (Rule × Str)) (n : Str) :
     firstMatch e cs = some n ↔
       ∃ pre r post, cs = pre ++ (r, n) :: post ∧ (∀ c ∈ pre, evalRule e c.1 = false) ∧
         evalRule e r = true := by
